@@ -152,17 +152,6 @@ package airgapped
 //@   ensures unchanged("Machine.dkgInstances", "map[string]*dkg.DKG", "dkg.DKG.instance", "client.Operation.DKGIdentifier")
 //@   ensures[C18.keyring.nonnil] result1 == nil ==> result0 != nil
 
-// replaying the log feeds every logged operation of the round, in log order, through the same handler without
-// logging it again; the first failure stops the replay
-//@ func (*Machine).ReplayOperationsLog
-//@   nosafety
-//@   requires wfMachine(am)
-//@   modifies *
-//@   modifies $handlerErr, $dealsOK, $responsesOK, $keyrings, $logged, $reader, $readerSeed, $ciphers, $bufc, $handled
-//@   assert@call ProcessOperation[C12.replay.nolog] !storeOperation && operation == loc(operation)
-//@   loop 0 invariant $logged == old($logged)
-//@   ensures[C12.replay.nolog] $logged == old($logged)
-
 // dropping sensitive data clears the private key and the operator's key from the machine object
 //@ func (*Machine).DropSensitiveData
 //@   nosafety
